@@ -4,8 +4,10 @@ import (
 	"bytes"
 	"errors"
 	"io"
+	"net"
 	"os"
 	"testing"
+	"time"
 
 	"github.com/pion/transport/v3/packetio"
 	"pgregory.net/rapid"
@@ -180,7 +182,15 @@ func (mc *machine) read(dst int, why string) {
 	h0, _, c0 := mc.ring()
 	var n int
 	var err error
+	// the model says this Read cannot block; a deadline turns a Read that
+	// blocks anyway (packets lost inside the ring) into a finding instead of a hang
+	_ = mc.b.SetReadDeadline(time.Now().Add(3 * time.Second))
 	ev.NoPanic(t, "Read", func() { n, err = mc.b.Read(buf) })
+	_ = mc.b.SetReadDeadline(time.Time{})
+	var ne net.Error
+	if errors.As(err, &ne) && ne.Timeout() {
+		t.Fatalf("C06/C08: Read blocked for 3 s although %d written packet(s) are unread (closed=%v): the buffer lost them", len(m.Fifo), m.Closed)
+	}
 	mc.c.Op("read %d (%s) -> %d,%v", dst, why, n, errName(err))
 	t.Logf("read dst=%d (%s) -> n=%d err=%v", dst, why, n, err)
 	if len(m.Fifo) == 0 {
